@@ -117,7 +117,7 @@ def gen_cases(tier, seed):
     # kill-point enumeration of one overwrite step per (driver, mode)
     for driver in ("parfile", "parblock"):
         for mode in ("numbered", "auto"):
-            for ncls in (("plain", "non-utf8", "prefix-pair") if tier == "quick" else sorted(NAMES)):
+            for ncls in (("plain", "non-utf8", "prefix-pair") if tier == "quick" else sorted(n_ for n_ in NAMES if n_ not in ("backup-named-sibling", "hardlinked-pair"))):      # (pairs that are refused have no overwrite step to kill)
                 names = list(NAMES[ncls])[:2]
                 dircopy = True
                 pre = [{"p": "dst", "k": "d"}, {"p": "dst/src", "k": "d"}]
